@@ -1027,6 +1027,11 @@ func checkSignature(algo SignatureAlgorithm, signed, signature []byte, publicKey
 		if ecdsaSig.R.Sign() <= 0 || ecdsaSig.S.Sign() <= 0 {
 			return errors.New("x509: ECDSA signature contained zero or negative values")
 		}
+		// asn1.Unmarshal ignores surplus elements inside the SEQUENCE: the signature
+		// must be exactly the DER encoding of SEQUENCE { r, s }
+		if der, err := asn1.Marshal(*ecdsaSig); err != nil || !bytes.Equal(der, signature) {
+			return errors.New("x509: ECDSA signature is not a DER SEQUENCE of two INTEGERs")
+		}
 		switch pub.Curve {
 		case sm2.P256Sm2():
 			sm2pub := &sm2.PublicKey{
